@@ -105,7 +105,7 @@ fn canon_str(css: &str, prefix: Option<&str>, rewrite: bool) -> Vec<String> {
     canon(&mut p, Ctx::Sel, prefix, rewrite, &mut out);
     out
 }
-const SEL: &[&str] = &[".a", ".md\\:x", " ", ".b", ">", ",", ":not(", ":is(", ")", ":hover", "/*c*/", "#i", "[x=y]", "::slotted(", ":nth-child(2n + 1 of ", ":nth-child(+3)"];
+const SEL: &[&str] = &[".a", ".md\\:x", " ", ".b", ">", ",", ":not(", ":is(", ")", ":hover", "/*c*/", "#i", "[x=y]", "::slotted(", ":nth-child(2n + 1 of ", ":nth-child(+3)", ":is(:nth-last-child(odd of "];
 /// token-level selector pieces: the dot, identifiers and the tokens that may come between them are separate pieces, so that
 /// every adjacency (`.` `,` `b`; `.` `:` `hover`; `.` ` ` `a`; `[` `.` `=` `b` `]`) is visited -- an identifier is a class name only
 /// immediately after the dot
@@ -145,18 +145,33 @@ fn check_with(css: &str, prefix: &str) -> Option<(String, String)> {
 /// options interplay: with :host conversion on, a `:host` rule moves to the low-priority output; every OTHER rule, before and
 /// after it, is rewritten exactly as it is without the `:host` rule
 fn check_host(rule: &str) -> Option<(String, String)> {
-    let css = format!(".h1{{width:1px}}:host{{color:red}}{}@media x{{:host{{top:0}}{}}}", rule, rule);
-    let plain = format!(".h1{{width:1px}}{}@media x{{{}}}", rule, rule);
-    let t = StyleSheetTransformer::from_css("p.wxss", &css, StyleSheetOptions { class_prefix: Some("p".into()), class_prefix_sign: Some("S".into()), rpx_ratio: 750., convert_host: true, host_is: Some("h".into()), ..Default::default() });
-    if t.warnings().count() > 0 { return None; }
-    let (n, _l) = t.output_and_low_priority_output();
-    let mut outs = String::new();
-    n.write_str(&mut outs).unwrap();
-    let want = canon_str(&plain, Some("p"), true);
-    let got = canon_str(&outs, None, false);
-    if want != got {
+    // the rule under test behind and in front of the :host rules
+    for form in 0..2 {
+        let (css, plain) = if form == 0 {
+            (format!(".h1{{width:1px}}:host{{color:red}}{}@media x{{:host{{top:0}}{}}}", rule, rule), format!(".h1{{width:1px}}{}@media x{{{}}}", rule, rule))
+        } else {
+            (format!(".h1{{width:1px}}{}:host{{color:red}}@media x{{{}:host{{top:0}}}}", rule, rule), format!(".h1{{width:1px}}{}@media x{{{}}}", rule, rule))
+        };
+        let t = StyleSheetTransformer::from_css("p.wxss", &css, StyleSheetOptions { class_prefix: Some("p".into()), class_prefix_sign: Some("S".into()), rpx_ratio: 750., convert_host: true, host_is: Some("h".into()), ..Default::default() });
+        if t.warnings().count() > 0 { return None; }
+        let (n, l) = t.output_and_low_priority_output();
+        let (mut outs, mut lows) = (String::new(), String::new());
+        n.write_str(&mut outs).unwrap();
+        l.write_str(&mut lows).unwrap();
         let show = |v: &Vec<String>| v.iter().map(|s| if s == "\u{1}" { "\u{2423}".to_string() } else { s.clone() }).collect::<Vec<_>>().join(" ");
-        return Some((format!("with :host conversion: normal output {:?} retokenises to [{}]", outs, show(&got)), format!("[{}] (the sheet without its :host rules)", show(&want))));
+        let want = canon_str(&plain, Some("p"), true);
+        let got = canon_str(&outs, None, false);
+        if want != got {
+            return Some((format!("with :host conversion: normal output {:?} retokenises to [{}]", outs, show(&got)), format!("[{}] (the sheet without its :host rules)", show(&want))));
+        }
+        // the low-priority output holds the two converted rules, each in its own chain of at-rules, and nothing of the other rules
+        // (a `;` in front of a `}` is not significant)
+        let strip = |v: Vec<String>| -> Vec<String> { let mut o: Vec<String> = vec![]; for t in v { if t == "}" && o.last().map(|x| x == ";").unwrap_or(false) { o.pop(); } o.push(t); } o };
+        let want_low = strip(canon_str("[wx-host=\"p\"],[is=\"h\"]{color:red}@media x{[wx-host=\"p\"],[is=\"h\"]{top:0}}", None, false));
+        let got_low = strip(canon_str(&lows, None, false));
+        if want_low != got_low {
+            return Some((format!("with :host conversion: low-priority output {:?} retokenises to [{}]", lows, show(&got_low)), format!("[{}] (the two converted :host rules in their own at-rule chains)", show(&want_low))));
+        }
     }
     None
 }
@@ -287,6 +302,12 @@ pub fn search() -> Outcome {
         let css = format!("{}{{width:2rpx}}:host{{top:0}}@media x{{{}{{width:1px}}}}", sel, sel);
         if let Some((got, want)) = check_binding(&css) {
             return Outcome { found: true, input: format!("binding:{}", css), observed: got, expected: want, evaluations: count, bound: BOUND.into() };
+        }
+    }
+    for rule in ["@font-face{font-family:f;src:url(f.woff)}", "@keyframes k{from{top:0}to{top:1rpx}}", "@page{margin:0}", "@page :first{@top-left{content:\"x\"}}", "@property --x{syntax:\"*\";inherits:false}", "@counter-style c{system:cyclic;symbols:\"*\"}", "@layer a, b;", "@font-face{font-family:\"\u{5b57}\u{1F600}\"}", ".\u{5b57}{content:\"\u{2192}\u{1F600}\"}"] {
+        count += 1;
+        if let Some((got, want)) = check_host(rule) {
+            return Outcome { found: true, input: format!("host:{}", rule), observed: got, expected: want, evaluations: count, bound: BOUND.into() };
         }
     }
     for sel in combos(SEL, 2) {
